@@ -31,4 +31,13 @@ theorem stale_handle_cancel_history :
         .on 0 (.stub (.ret 3)), .on 1 .cancel] := by
   decide
 
+set_option maxRecDepth 16384 in
+/-- known finding `iface-cancel-one-method`: `If2.A.Return(1); If2.B.Return(2); If2.A.Cancel()` — Cancel through A's
+    mocker is `ctx.Cancel()`, which restores the whole variable: B runs the original although its last instruction
+    was Return(2) (the reference: B answers 2, A — having no mock of its own in a mocked variable — panics). -/
+theorem iface_cancel_one_method_history :
+    behRows (run fixed (initP .p0) [.h (.i2 false) (.stub (.ret 1)), .h (.i2 true) (.stub (.ret 2)), .h (.i2 false) .cancel])
+      ≠ Lww.run (Lww.initP .p0) [.h (.i2 false) (.stub (.ret 1)), .h (.i2 true) (.stub (.ret 2)), .h (.i2 false) .cancel] := by
+  decide
+
 end C12.Findings
